@@ -1,6 +1,7 @@
 package scen
 
 import (
+	"errors"
 	"context"
 	"fmt"
 	"strings"
@@ -53,6 +54,21 @@ func c18Body(r *Run) {
 		timeout = &d
 	}
 	ps := gochannel.NewGoChannel(gochannel.Config{OutputChannelBuffer: int64(simrt.Pick(t, 0, 1, 3))}, nil)
+	// commands travel on a Pub/Sub of their own, so that closing the Router (which closes its subscribers) leaves the
+	// reply transport alone
+	psCmd := gochannel.NewGoChannel(gochannel.Config{OutputChannelBuffer: int64(simrt.Pick(t, 0, 1, 3))}, nil)
+	// a quarter of the runs: the Router is closed while handlers are running (every listener then has a time-out);
+	// a third of the runs: somebody else's notifications, which this backend cannot even decode, share the reply topic
+	midClose := t.Chance(1, 4)
+	midCloseAt := time.Duration(5+t.Int(30)) * time.Millisecond
+	foreign := 0
+	if t.Chance(1, 3) {
+		foreign = 1 + t.Int(4)
+	}
+	if midClose && timeout == nil {
+		d := time.Duration(50+t.Int(500)) * time.Millisecond
+		timeout = &d
+	}
 	replyPub := NewScriptedPublisher(r, "reply-publisher")
 	replyPub.Inner = ps
 	for i := t.Skewed(4); i > 0; i-- {
@@ -115,7 +131,7 @@ func c18Body(r *Run) {
 
 	rig := newRouterRig(r, 30*time.Second)
 	marsh := cqrs.JSONMarshaler{}
-	bus, err := cqrs.NewCommandBusWithConfig(ps, cqrs.CommandBusConfig{
+	bus, err := cqrs.NewCommandBusWithConfig(psCmd, cqrs.CommandBusConfig{
 		GeneratePublishTopic: func(cqrs.CommandBusGeneratePublishTopicParams) (string, error) { return "commands", nil },
 		Marshaler:            marsh,
 	})
@@ -125,7 +141,7 @@ func c18Body(r *Run) {
 	}
 	proc, err := cqrs.NewCommandProcessorWithConfig(rig.Router, cqrs.CommandProcessorConfig{
 		GenerateSubscribeTopic: func(cqrs.CommandProcessorGenerateSubscribeTopicParams) (string, error) { return "commands", nil },
-		SubscriberConstructor:  func(cqrs.CommandProcessorSubscriberConstructorParams) (message.Subscriber, error) { return ps, nil },
+		SubscriberConstructor:  func(cqrs.CommandProcessorSubscriberConstructorParams) (message.Subscriber, error) { return psCmd, nil },
 		Marshaler:              marsh,
 	})
 	if err != nil {
@@ -200,6 +216,12 @@ func c18Body(r *Run) {
 				continue
 			}
 			for _, rp := range c.replies {
+				var ue requestreply.ReplyUnmarshalError
+				if errors.As(rp.Error, &ue) {
+					// (every reply the handlers of this run produce can be decoded)
+					r.Fail("C18.R1", "a caller was handed a notification that was not produced for its own command (a foreign one that could not be decoded)", "%s: %v", what, rp.Error)
+					continue
+				}
 				if rp.NotificationMessage == nil {
 					// time-out style reply: it has to say so
 					if rp.Error == nil {
@@ -272,6 +294,24 @@ func c18Body(r *Run) {
 	})
 
 	rig.Start()
+	if midClose {
+		go func() {
+			time.Sleep(midCloseAt)
+			r.Fault("router-close-while-handlers-run")
+			rig.Router.Close()
+		}()
+	}
+	for k := 0; k < foreign; k++ {
+		k := k
+		go func() {
+			time.Sleep(time.Duration(k*7) * time.Millisecond)
+			m := message.NewMessage(fmt.Sprintf("foreign-%d", k), []byte(`"a reply of another backend with another result type"`))
+			m.Metadata.Set(requestreply.OperationIDMetadataKey, fmt.Sprintf("somebody-elses-operation-%d", k))
+			m.Metadata.Set(requestreply.HasErrorMetadataKey, "0")
+			r.Fault("foreign-notification-on-the-reply-topic")
+			ps.Publish("replies", m)
+		}()
+	}
 	for _, c := range callers {
 		c := c
 		go func() {
@@ -317,9 +357,13 @@ func c18Body(r *Run) {
 					}
 					c.chClosed = true
 				case 2:
-					rp, ok := <-ch
-					if ok {
-						c.replies = append(c.replies, rp)
+					// (a reply may never come: its publication failed and was tolerated, or the router was closed)
+					select {
+					case rp, ok := <-ch:
+						if ok {
+							c.replies = append(c.replies, rp)
+						}
+					case <-time.After(c.lateAfter):
 					}
 					time.Sleep(c.lateAfter)
 					r.Fault("caller-cancel")
